@@ -78,7 +78,8 @@ def dCtx (j : Json) : D Ctx := do
   pure { quote, secondary, aliasQuote, asKeyword, dialect,
          withAlias := ← fBool j "with_alias", withNamespace := ← fBool j "with_namespace",
          subquery := ← fBool j "subquery", subcriterion := ← fBool j "subcriterion",
-         groupbyAlias := ← fBool j "groupby_alias" true, param := ← fBool j "param" }
+         groupbyAlias := ← fBool j "groupby_alias" true, groupbyAliasSet := !(fld j "groupby_alias").isNull,
+         param := ← fBool j "param" }
 
 def dTRef (j : Json) : D TRef := do
   let sch ← (← fArr j "schema").mapM jStr
